@@ -228,6 +228,43 @@ REFACTORS = [
 		}
 	}
 """)]),
+ ("r19-bump-old-record-local", ["C18", "C07"], [("portalwire/table.go",
+   """	// Apply update.
+	n.Node = newRecord
+	if ipchanged || portchanged {
+""",
+   """	// Apply update.
+	old := n.Node
+	n.Node = newRecord
+	if ipchanged || newRecord.UDP() != old.UDP() {
+"""), ("portalwire/table.go",
+   """	portchanged := newRecord.UDP() != n.UDP()
+""", "")]),
+ ("r20-open-restore-counter-early", ["C17", "C05"], [("storage/pebble/storage.go",
+   """		size := binary.BigEndian.Uint64(val)
+		if err := closer.Close(); err != nil {
+			return nil, err
+		}
+		// init stage, no need to use lock
+		cs.size.Store(size)
+""",
+   """		size := binary.BigEndian.Uint64(val)
+		// init stage, no need to use lock
+		cs.size.Store(size)
+		if err := closer.Close(); err != nil {
+			return nil, err
+		}
+""")]),
+ ("r21-close-to-content-target-local", ["C20", "C08"], [("portalwire/portal_protocol.go",
+   """	sort.Slice(allNodes, func(i, j int) bool {
+		return enode.LogDist(allNodes[i].ID(), enode.ID(contentId)) < enode.LogDist(allNodes[j].ID(), enode.ID(contentId))
+	})
+""",
+   """	target := enode.ID(contentId)
+	sort.Slice(allNodes, func(i, j int) bool {
+		return enode.LogDist(allNodes[i].ID(), target) < enode.LogDist(allNodes[j].ID(), target)
+	})
+""")]),
 ]
 
 MUTANTS = [
@@ -466,4 +503,44 @@ MUTANTS = [
 }
 
 // SizeSSZ returns the ssz encoded size in bytes for the Ping object""")]),
+ ("m-C18-port-compared-after-swap", "C18", [("portalwire/table.go",
+   """	portchanged := newRecord.UDP() != n.UDP()
+""", ""), ("portalwire/table.go",
+   """	if ipchanged || portchanged {
+""",
+   """	if ipchanged || newRecord.UDP() != n.UDP() {
+""")]),
+ ("m-C17-counter-restored-after-prune", "C17", [("storage/pebble/storage.go",
+   """		// init stage, no need to use lock
+		cs.size.Store(size)
+		if size > cs.storageCapacityInBytes {
+			err := cs.prune()
+			if err != nil {
+				return nil, err
+			}
+		}
+""",
+   """		if size > cs.storageCapacityInBytes {
+			err := cs.prune()
+			if err != nil {
+				return nil, err
+			}
+		}
+		// init stage, no need to use lock
+		cs.size.Store(size)
+""")]),
+ ("m-C20-unsorted-small-table", "C20", [("portalwire/portal_protocol.go",
+   """	allNodes := p.table.nodeList()
+	sort.Slice(allNodes, func(i, j int) bool {
+		return enode.LogDist(allNodes[i].ID(), enode.ID(contentId)) < enode.LogDist(allNodes[j].ID(), enode.ID(contentId))
+	})
+""",
+   """	allNodes := p.table.nodeList()
+	if len(allNodes) <= limit {
+		return allNodes
+	}
+	sort.Slice(allNodes, func(i, j int) bool {
+		return enode.LogDist(allNodes[i].ID(), enode.ID(contentId)) < enode.LogDist(allNodes[j].ID(), enode.ID(contentId))
+	})
+""")]),
 ]
